@@ -370,6 +370,16 @@ class BMRoles:
         return key(self.gates[role].attrs["ready"])
 
 
+def _phi_gate(ob, state, g, missing):
+    """a guard that is one of two timing controllers' ready, chosen when the generator runs (Python-level if): not the shape this rule reads"""
+    ph = [a_ for a_ in g if "phi(" in a_ and ".ready" in a_]
+    if ph:
+        ob.unknown("state %s: the gate for %s is not found as such, but the site is guarded by %s - a timing controller selected at build time; "
+                   "which one applies is not decided" % (state, "/".join(missing), ph[0][:200]))
+        return True
+    return False
+
+
 def bm_gates(ctx):
     ob = ctx.ob("C03.2", "BankMachine: every site where a precharge takes effect (explicit PRE, the edge that starts the tRP wait after an "
                          "auto-precharge, the refresh grant that lets precharge-all follow) is guarded by BOTH gate(tWTP).ready and "
@@ -401,7 +411,9 @@ def bm_gates(ctx):
             g = v.guard_keys(l)
             missing = [nm for k, nm in need.items() if k not in g]
             ob.instance("state %s: %s" % (s, what), {"guards": sorted(g), "missing": missing})
-            if missing:
+            if missing and _phi_gate(ob, s, g, missing):
+                pass
+            elif missing:
                 ob.refute("%s:%s" % (s, "+".join(missing)), "in bank FSM state %s the %s is not gated by %s.ready (guards: %s) - "
                           "a precharge can follow an ACT/WRITE too early" % (s, what, "/".join(missing), sorted(g)), l.loc,
                           {"state": s, "site": what, "guards": sorted(g)})
@@ -414,7 +426,9 @@ def bm_gates(ctx):
             g = v.guard_keys(l)
             missing = [nm for k, nm in need.items() if k not in g]
             ob.instance("state %s: refresh grant" % s, {"guards": sorted(g), "missing": missing})
-            if missing:
+            if missing and _phi_gate(ob, s, g, missing):
+                pass
+            elif missing:
                 ob.refute("%s:%s" % (s, "+".join(missing)), "in bank FSM state %s the refresh grant is not gated by %s.ready (guards: %s) - "
                           "the precharge-all can follow an ACT/WRITE too early" % (s, "/".join(missing), sorted(g)), l.loc,
                           {"state": s, "site": "refresh grant", "guards": sorted(g)})
@@ -425,12 +439,16 @@ def bm_gates(ctx):
             nsites += 1
             missing = [nm for k, nm in need.items() if k not in g]
             ob.instance("state %s: additional PRE site" % s, {"guards": sorted(g), "missing": missing})
-            if missing:
+            if missing and _phi_gate(ob, s, g, missing):
+                pass
+            elif missing:
                 ob.refute("%s:%s" % (s, "+".join(missing)), "in bank FSM state %s a precharge is presented without %s.ready (guards: %s) - it can follow an ACT/WRITE too "
                           "early" % (s, "/".join(missing), sorted(g)), l.loc)
         elif role == "ACT":
             ob.instance("state %s: additional ACT site" % s, {"guards": sorted(g)})
-            if R.gate_ready("tRC") not in g:
+            if R.gate_ready("tRC") not in g and _phi_gate(ob, s, g, ["tRC"]):
+                pass
+            elif R.gate_ready("tRC") not in g:
                 ob.refute("%s:tRC" % s, "ACT is presented in state %s without gate(tRC).ready (guards %s)" % (s, sorted(g)), l.loc)
     # ACT gated by tRC
     for s, role in R.sites.items():
